@@ -178,6 +178,57 @@ def _block_edits(ctx):
     return cnt
 
 
+def _size_worker(ns):
+    """size sweep: lengths around every power of two up to 4096 (and k*2^m + 1): edits of the LAST entries (the ones a
+    paging / chunking loop can lose) change the commitment, tree and root agree, proofs at the ends and in the middle verify"""
+    from skepticoin.merkletree import get_merkle_root, get_merkle_tree, get_proof
+    bad = []
+    cnt = 0
+    fresh = leaf(999_999)
+    for n in ns:
+        lst = [leaf(300_000 + i) for i in range(n)]
+        try:
+            root = get_merkle_root(list(lst))
+            tree = get_merkle_tree(list(lst))
+        except Exception as e:
+            bad.append(('size-raises', n, repr(e)))
+            continue
+        if tree.hash() != root:
+            bad.append(('size-tree-vs-root', n, None))
+        eds = [('append-fresh', lst + [fresh]), ('append-copy-of-last', lst + [lst[-1]]), ('subst-last', lst[:-1] + [fresh])]
+        if n > 1:
+            eds += [('delete-last', lst[:-1]), ('subst-second-last', lst[:-2] + [fresh, lst[-1]]), ('swap-last-two', lst[:-2] + [lst[-1], lst[-2]])]
+        for name, l2 in eds:
+            cnt += 1
+            try:
+                same = get_merkle_root(list(l2)) == root
+            except Exception:
+                same = True
+            if same:
+                bad.append(('size-edit', n, name))
+        for pos in sorted({0, n // 2, max(0, n - 2), n - 1}):
+            cnt += 1
+            try:
+                p = get_proof(tree, pos)
+                lv = []
+                proof_leaves(p, lv)
+                ok = p.hash() == root and (pos, lst[pos]) in lv
+            except Exception:
+                ok = False
+            if not ok:
+                bad.append(('size-proof', n, pos))
+    return bad[:5], cnt
+
+
+def size_lengths():
+    ns = set()
+    for m in range(1, 13):
+        k = 1 << m
+        ns |= {k - 1, k, k + 1, 2 * k + 1, 3 * k + 1, 3 * k}
+    ns |= {1000, 1500, 3000, 4097}
+    return sorted(x for x in ns if 1 <= x <= 4100)
+
+
 def _pair_worker(arg):
     """call-history independence of trees and proofs: for every ordered pair (L1, L2) of lists over `a` ids with length
     1..L whose L1 is in this worker's share: commit to L1 (tree + root), then build the tree of L2 and take the proof of
@@ -272,6 +323,14 @@ def run(ctx):
                 l1, where, l2, pa), {'kind': 'pair', 'a': pa, 'L': pL, 'l1': l1, 'l2': l2})
     npf += npairs
     ctx.cov['history_pairs'] = npairs
+    sl = size_lengths()
+    nsz = 0
+    for bad, c in ctx.pmap(_size_worker, [sl[i::16] for i in range(16)]):
+        nsz += c
+        for kind, n_, x in bad:
+            ctx.violation(kind, "length %d: %s %s" % (n_, kind, x), {'kind': 'size', 'n': n_})
+    npf += nsz
+    ctx.cov['size_sweep'] = {'lengths': len(sl), 'largest': sl[-1], 'checks': nsz}
     # ---- two threads computing commitments / proofs of different lists at the same time (the miner thread does so for every
     #      work request while the networking thread validates blocks)
     from .. import thrscen
@@ -337,6 +396,9 @@ def replay(data, ctx):
             ok = False
         if not ok:
             out.append(('tree-depends-on-call-history', 'reproduced'))
+    elif data['kind'] == 'size':
+        bad, _ = _size_worker([data['n']])
+        out = [(k, 'length %d %s' % (n, x)) for k, n, x in bad]
     elif data['kind'] == 'len':
         bad, _, _ = _len_worker(data['n'])
         out = [(k, 'length %d %s' % (n, x)) for k, n, x in bad]
